@@ -1079,7 +1079,11 @@ def probe_purity(spec):
             try:
                 portf.setup_optim_problem(prices(gi, 0), G[gi], skip_nodes=[list(portf.nodes.keys())[st.get('k', 0) % max(len(portf.nodes), 1)]])
             except Exception as e:
+                # a set-up that stopped half way leaves some assets with the grid and others without: no defined "grid set previously"
                 rec['error'] = repr(e)[:200]
+                last_pgrid = None
+                agrid.clear()
+                ahow.clear()
         elif kind == 'Pn':
             if last_pgrid is None:
                 continue
